@@ -4,7 +4,7 @@
    (HComet 4) is unreachable through transactions. *)
 From stdpp Require Import gmap.
 Require Import Model.Base Model.Ante Model.Validate Model.Current Model.State Model.Staking Model.Slashing Model.Poa Model.App.
-Require Import proofs.Inv proofs.InvIdx proofs.L1Effects proofs.InvPres proofs.InvMsgs proofs.InvHistory proofs.InvQueue proofs.InvComet proofs.InvElig.
+Require Import proofs.EvBasic proofs.Inv proofs.InvIdx proofs.L1Effects proofs.InvPres proofs.InvMsgs proofs.InvHistory proofs.InvQueue proofs.InvComet proofs.InvElig.
 Open Scope Z_scope.
 
 Definition NE (s : staking) : Prop := exists id v, vals s !! id = Some v /\ eligible v = true.
@@ -374,10 +374,12 @@ Proof.
   - inversion E; reflexivity.
 Qed.
 
-Lemma begin_block_params c votes absent c' : begin_block c votes absent = inl c' -> params (stk c') = params (stk c).
+Lemma begin_block_params c votes absent evs c' : begin_block c votes absent evs = inl c' -> params (stk c') = params (stk c).
 Proof.
   unfold begin_block. destruct (_ && _); [discriminate|]. destruct (handle_votes votes absent c) as [c1|] eqn:E; [|discriminate].
-  intros [= <-]. apply handle_votes_params in E. unfold poa_begin_block. destruct (1 <? height c1); exact E.
+  destruct (handle_evidences evs c1) as [c2|] eqn:E2; [|discriminate].
+  intros [= <-]. apply handle_votes_params in E. apply handle_evidences_frame in E2 as (_ & _ & _ & _ & _ & _ & _ & P & _).
+  unfold poa_begin_block. destruct (1 <? height c2); cbn; congruence.
 Qed.
 
 Lemma staking_end_block_params c c' upd : staking_end_block c = EBOk c' upd -> params (stk c') = params (stk c).
@@ -391,16 +393,16 @@ Qed.
 Definition alive_after_begin (w : world) (b : block) : Prop :=
   let c0 := with_clock (w_chain w) (height (w_chain w) + 1) (now (w_chain w) + b_dt b) in
   let votes := match c_prev (w_comet w) with Some vs => sorted_votes vs | None => [] end in
-  match begin_block c0 votes (b_absent b) with inl c1 => NE (stk c1) | inr _ => True end.
+  match begin_block c0 votes (b_absent b) (b_evidence b) with inl c1 => NE (stk c1) | inr _ => True end.
 
 Lemma run_block_cap w b : wt_block b -> CI (w_chain w) -> cap_pos (stk (w_chain w)) -> cap_pos (stk (w_chain (fst (run_block w b)))).
 Proof.
   intros Hwt HCI HC. unfold run_block. destruct (w_halted w); [exact HC|].
   set (c0 := with_clock (w_chain w) (height (w_chain w) + 1) (now (w_chain w) + b_dt b)).
   assert (H0 : CI c0) by (apply CI_clock; exact HCI). assert (C0 : cap_pos (stk c0)) by exact HC.
-  destruct (begin_block c0 _ (b_absent b)) as [c1|e] eqn:Eb; [|exact C0].
-  pose proof (begin_block_CI _ _ _ _ H0 Eb) as H1.
-  assert (C1 : cap_pos (stk c1)) by (unfold cap_pos; rewrite (begin_block_params _ _ _ _ Eb); exact C0).
+  destruct (begin_block c0 _ (b_absent b) (b_evidence b)) as [c1|e] eqn:Eb; [|exact C0].
+  pose proof (begin_block_CI _ _ _ _ _ H0 Eb) as H1.
+  assert (C1 : cap_pos (stk c1)) by (unfold cap_pos; rewrite (begin_block_params _ _ _ _ _ Eb); exact C0).
   (* the witness is not needed for the cap: replay the transactions with the cap alone *)
   assert (C2 : cap_pos (stk (fst (deliver_txs c1 (b_txs b))))).
   { clear -Hwt H1 C1. unfold wt_block in Hwt. revert c1 H1 C1. induction (b_txs b) as [|tx txs IH]; cbn; intros c1 H1 C1; [exact C1|].
@@ -429,9 +431,9 @@ Proof.
   intros [HCI Hrel] HI HC Hwt Halive Hh. specialize (Hrel Hh). unfold alive_after_begin in Halive. unfold run_block. rewrite Hh.
   set (c0 := with_clock (w_chain w) (height (w_chain w) + 1) (now (w_chain w) + b_dt b)) in *.
   assert (H0 : CI c0) by (apply CI_clock; exact HCI). assert (I0 : IC (stk c0)) by exact HI. assert (C0 : cap_pos (stk c0)) by exact HC.
-  destruct (begin_block c0 _ (b_absent b)) as [c1|e] eqn:Eb; [|discriminate].
-  pose proof (begin_block_CI _ _ _ _ H0 Eb) as H1. pose proof (begin_block_MS _ _ _ _ Eb) as M1. pose proof (begin_block_IC _ _ _ _ I0 Eb) as I1.
-  assert (C1 : cap_pos (stk c1)) by (unfold cap_pos; rewrite (begin_block_params _ _ _ _ Eb); exact C0).
+  destruct (begin_block c0 _ (b_absent b) (b_evidence b)) as [c1|e] eqn:Eb; [|discriminate].
+  pose proof (begin_block_CI _ _ _ _ _ H0 Eb) as H1. pose proof (begin_block_MS _ _ _ _ _ Eb) as M1. pose proof (begin_block_IC _ _ _ _ _ I0 Eb) as I1.
+  assert (C1 : cap_pos (stk c1)) by (unfold cap_pos; rewrite (begin_block_params _ _ _ _ _ Eb); exact C0).
   destruct (deliver_txs_NE_cap (b_txs b) c1 Hwt H1 Halive C1) as [N2 C2].
   pose proof (deliver_txs_CI (b_txs b) c1 H1) as H2. pose proof (deliver_txs_MS (b_txs b) c1 H1) as M2. pose proof (deliver_txs_IC (b_txs b) c1 I1) as I2.
   destruct (deliver_txs c1 (b_txs b)) as [c2 outs]. cbn in H2, M2, I2, N2, C2.
